@@ -165,17 +165,23 @@ theorem zero_dim_divergence_propagates :
     eval newPolicy [] (fun _ => .error .unsupported) e = .ok (⟨[2], .real, [⟨3, 0⟩, ⟨6, 0⟩]⟩, .plain) := by
   decide +kernel
 
-/-- **copy and pickle round trips**: under any wrapping policy, `copy(e)` and
-`pickle.loads(pickle.dumps(e))` evaluate to exactly what `e` evaluates to — same values, same
-shape and dtype class, same kind of object, same grid. -/
+/-- **copy and pickle round trips** (a statement about how the model *defines* the two operations, not a
+derivation from the pickling code): under any wrapping policy, `copy(e)` and `pickle.loads(pickle.dumps(e))`
+evaluate to exactly what `e` evaluates to — same values, same shape and dtype class, same kind of object,
+same grid.  `eval` passes the tag through and restores the array from its `ndarray.__reduce__` state
+(`setstate_getstate`); memory order, `_field_reconstruct` and the slicing of the state tuple in
+`__setstate__` are not modelled.  What carries the clause "fields survive copy and pickle" for the running
+code is the tie: the real `copy` (3 spellings) and `pickle` (protocols 2–5) results of both styles are compared
+with this identity at every such node (values, dtype, kind of object, grid, no shared memory: `_roundtrip_check`),
+including F-ordered and non-contiguous Fields in the extended programs. -/
 theorem copy_pickle_roundtrip (P : Policy) (gs : Grids) (look : Nat → Except Err Val) (e : Expr) :
     eval P gs look (.copy e) = eval P gs look e ∧ eval P gs look (.pickle e) = eval P gs look e := by
   constructor
   · cases h : eval P gs look e <;> simp [eval, h]
   · cases h : eval P gs look e <;> simp [eval, h, Prim.setstate, Prim.getstate]
 
-/-- the ndarray state survives `__setstate__(__getstate__())`, whatever array it is restored into -/
-theorem setstate_getstate (fresh a : Arr) : Prim.setstate fresh (Prim.getstate a) = a := rfl
+/-- the ndarray state (shape, dtype class, data) survives `__setstate__(__getstate__())` -/
+theorem setstate_getstate (a : Arr) : Prim.setstate (Prim.getstate a) = a := rfl
 
 
 /-- **Grid rule for every further modelled operation** (reductions with keepdims, cumsum/cumprod,
@@ -269,6 +275,21 @@ theorem inplace_writes_through_old (gs : Grids) (so so' : OState) (x : Nat) (u :
             · subst hyx; rw [hx] at hy; exact absurd (Option.some.inj hy).symm hne
             · simp [hyx, hy, List.getElem?_set_ne (Ne.symm hne)]
 
+/-- Python's `x = y` is the statement `.alias x y`; written as an assignment of the expression `y` it is
+outside the model on both routes (it used to be a copy, which no Python program does) -/
+theorem assign_of_bare_variable_unsupported (gs : Grids) (so : OState) (sn : NState) (x y : Nat) :
+    stepO gs so (.assign x (.var y)) = .error .unsupported ∧ stepN gs sn (.assign x (.var y)) = .error .unsupported :=
+  ⟨rfl, rfl⟩
+
+/-- the hypotheses of `inplace_writes_through_old` / `_new` are satisfiable: `x = Field([1, 2], g0); h = x;
+x += 1` succeeds on both routes and the alias `h` reads the updated values -/
+example :
+    let prog : List Stmt := [.assign 0 (.field ⟨[2], .real, [⟨1, 0⟩, ⟨2, 0⟩]⟩ 0), .alias 1 0,
+      .update 0 (.iop .add) [.scal ⟨1, 0⟩ .real]]
+    ((runO [] {} prog).2.map fun s => s.look 1) = some (.ok (⟨[2], .real, [⟨2, 0⟩, ⟨3, 0⟩]⟩, .field 0)) ∧
+    ((runN [] {} prog).2.map fun s => s.look 1) = some (.ok (⟨[2], .real, [⟨2, 0⟩, ⟨3, 0⟩]⟩, .field 0)) := by
+  decide +kernel
+
 /-- **In-place statements write through (wrapper route)**: the same for the wrapper store — every
 variable whose wrapper shares `x`'s buffer reads the updated array (although `x op= e` binds `x` to
 a *new* wrapper), variables on other buffers are unchanged; `x` itself reads the updated array and, if it
@@ -321,14 +342,23 @@ theorem inplace_writes_through_new (gs : Grids) (sn sn' : NState) (x : Nat) (u :
             · subst hyx; rw [hx] at hy; exact absurd (congrArg Prod.fst (Option.some.inj hy)).symm hne
             · simp [hyx, hy, List.getElem?_set_ne (Ne.symm hne)]
 
-/-- **A copy is independent**: `y = x.copy()` gives `y` a fresh object, so no later in-place
-statement on `x` reaches `y` (subclass route; the wrapper route is the same statement with buffers). -/
-theorem copy_is_independent_old (gs : Grids) (so s1 s2 : OState) (x y : Nat) (u : Prim.Upd) (args : List Expr) (c : Nat)
+/-- **The stores are view-free: an assigned value is independent (subclass route)** — after `y = e`, no
+later in-place statement on another variable `x` reaches `y`.  For `e = x.copy()`, `pickle.loads(pickle.dumps(x))`
+and every arithmetic expression this is NumPy's behaviour; for view-producing `e` (`x[..., 0:2]`, `x.reshape(…)`,
+`x.real`, `x.shaped`) it is *not*: the model copies where NumPy shares memory.  The harness therefore never lets
+the model read such a `y` after an update of `x`; that the real styles treat views alike is checked on the real
+code only (oracle key `view-read`), and that real copies / pickles share no memory by `_roundtrip_check`. -/
+theorem assigned_value_is_independent_old (gs : Grids) (so s1 s2 : OState) (x y : Nat) (e : Expr) (u : Prim.Upd)
+    (args : List Expr) (c : Nat)
     (hxy : y ≠ x) (hx : so.vars.lookup x = some c) (hc : c < so.cells.length)
-    (h1 : stepO gs so (.assign y (.copy (.var x))) = .ok s1)
+    (h1 : stepO gs so (.assign y e) = .ok s1)
     (h2 : stepO gs s1 (.update x u args) = .ok s2) : s2.look y = s1.look y := by
   simp only [stepO, evalO] at h1
-  cases hv : eval oldPolicy gs so.look (.copy (.var x)) with
+  cases hiv : e.isVar with
+  | true => simp [hiv] at h1
+  | false =>
+  simp only [hiv, Bool.false_eq_true, if_false] at h1
+  cases hv : eval oldPolicy gs so.look e with
   | error err => simp [hv, Except.map] at h1
   | ok v =>
     simp only [hv, Except.map, Except.ok.injEq] at h1
@@ -337,6 +367,37 @@ theorem copy_is_independent_old (gs : Grids) (so s1 s2 : OState) (x y : Nat) (u 
       simp [lookup_bind, Ne.symm hxy, hx]
     obtain ⟨_, _, _, _, _, _, _, hother⟩ := inplace_writes_through_old gs _ s2 x u args c hx1 h2
     exact hother y so.cells.length (by simp [lookup_bind]) (by omega)
+
+/-- the same for the wrapper route: `y = e` puts the value into a new buffer -/
+theorem assigned_value_is_independent_new (gs : Grids) (sn s1 s2 : NState) (x y : Nat) (e : Expr) (u : Prim.Upd)
+    (args : List Expr) (r : Nat × Tag)
+    (hxy : y ≠ x) (hx : sn.vars.lookup x = some r) (hr : r.1 < sn.bufs.length)
+    (h1 : stepN gs sn (.assign y e) = .ok s1)
+    (h2 : stepN gs s1 (.update x u args) = .ok s2) : s2.look y = s1.look y := by
+  simp only [stepN, evalN] at h1
+  cases hiv : e.isVar with
+  | true => simp [hiv] at h1
+  | false =>
+  simp only [hiv, Bool.false_eq_true, if_false] at h1
+  cases hv : eval newPolicy gs sn.look e with
+  | error err => simp [hv, Except.map] at h1
+  | ok v =>
+    simp only [hv, Except.map, Except.ok.injEq] at h1
+    subst h1
+    have hx1 : (bind sn.vars y (sn.bufs.length, v.2)).lookup x = some r := by
+      simp [lookup_bind, Ne.symm hxy, hx]
+    obtain ⟨_, _, _, _, _, _, _, _, _, hother⟩ := inplace_writes_through_new gs _ s2 x u args r hx1 h2
+    exact hother y (sn.bufs.length, v.2) (by simp [lookup_bind]) (by simp; omega)
+
+/-- satisfiable (both routes): `x = Field([1, 2], g0); y = x.copy(); x += 1` -/
+example :
+    let prog : List Stmt := [.assign 0 (.field ⟨[2], .real, [⟨1, 0⟩, ⟨2, 0⟩]⟩ 0), .assign 1 (.copy (.var 0)),
+      .update 0 (.iop .add) [.scal ⟨1, 0⟩ .real]]
+    ((runO [] {} prog).2.map fun s => s.look 1) = some (.ok (⟨[2], .real, [⟨1, 0⟩, ⟨2, 0⟩]⟩, .field 0)) ∧
+    ((runN [] {} prog).2.map fun s => s.look 1) = some (.ok (⟨[2], .real, [⟨1, 0⟩, ⟨2, 0⟩]⟩, .field 0)) ∧
+    ((runO [] {} prog).2.map fun s => s.look 0) = some (.ok (⟨[2], .real, [⟨2, 0⟩, ⟨3, 0⟩]⟩, .field 0)) ∧
+    ((runN [] {} prog).2.map fun s => s.look 0) = some (.ok (⟨[2], .real, [⟨2, 0⟩, ⟨3, 0⟩]⟩, .field 0)) := by
+  decide +kernel
 
 /-! ## The Fourier half: backend selection, MFT / NFT switches (`Model/FourierSwitch.lean`)
 
